@@ -2,6 +2,7 @@ import ShuttleProofs.C05
 
 open ShuttleProofs.C05
 
+-- Condvar
 #print axioms wait_returns_only_after_notify_during_wait
 #print axioms notify_one_releases_at_most_one
 #print axioms any_waiter_can_win
@@ -9,7 +10,18 @@ open ShuttleProofs.C05
 #print axioms condvar_blocked_iff_no_pending_signal
 #print axioms condvar_no_lost_wakeup
 #print axioms mutex_released_while_waiting_and_reheld
+-- Barrier
 #print axioms barrier_releases_exact_group
 #print axioms one_leader_per_generation
 #print axioms barrier_reuse_generations
 #print axioms barrier_bound_zero_one
+-- Once
+#print axioms exactly_one_initializer
+#print axioms call_once_returns_after_completion
+#print axioms is_completed_iff_complete
+-- park / unpark
+#print axioms token_is_boolean
+#print axioms park_consumes_or_blocks
+#print axioms unpark_unblocks_or_sets_token
+#print axioms blocked_in_park_cleared_on_any_unblock
+#print axioms park_invariant
